@@ -39,3 +39,11 @@ Theorem C03_index_list : ICOk index_list.
 Proof. exact index_list_ok. Qed.
 Theorem C03_index_optimized : ICOk index_optimized.
 Proof. exact index_optimized_ok. Qed.
+
+(** The tie to the terms the correspondence runs: for EVERY FlatStack of the catalogue (the
+    [fs_entry] function extracted to OCaml), the region meets the contract and the index container
+    is a faithful sequence -- the hypotheses of the theorems above. *)
+From FC Require Import Model.Wire Model.FSMachine Model.Catalogue Model.CatalogueOk.
+Theorem C03_catalogue : forall chk szs n F, fs_entry chk szs n = Some F ->
+  (exists SP : RSpec (mr (fm F)), @RegionOK (mr (fm F)) SP) /\ inhabited (ICOk (fs_ic F)).
+Proof. exact fs_catalogue_contract. Qed.
